@@ -33,6 +33,10 @@ fn producers(thorough: bool) -> Vec<String> {
         "(1, 2)", "(1, 2.5)", "([1], 2)", "([0, 1][1:], 2)", "([], [])", "([1][1:], [1; 0])", "(1, 2, 3)",
         "struct{ a := [1] }", "struct{ a := [0, 1][1:] }", "struct{ a := [1], b := 2 }", "struct{ a := [] }",
         "struct{ a := [1; 0] }", "struct{ b := 2, a := [1] + [] }", "struct{}",
+        // a NaN inside every kind of container, one and two levels deep (such a value differs
+        // from every value, itself included, however the two operands come to be the same value)
+        "((0.0 / 0.0), 1)", "struct{ a := (0.0 / 0.0) }", "[[(0.0 / 0.0)]]", "struct{ a := [(0.0 / 0.0)] }", "[struct{ a := (0.0 / 0.0) }]",
+        "(struct{ a := (0.0 / 0.0) }, 1)", "[((0.0 / 0.0), 1)]", "struct{ a := struct{ b := (0.0 / 0.0) } }",
     ]
     .iter()
     .map(|s| s.to_string())
